@@ -232,6 +232,7 @@ type orderFacts struct {
 
 func wrapOrderFacts() (orderFacts, error) {
 	var of orderFacts
+	closeLatches, sendLatches := false, false // Close / server SendMsg call sendHeaderIfNeeded at all
 	fset := token.NewFileSet()
 	f, err := parser.ParseFile(fset, filepath.Join(repoDir(), "pkg/wrap/stream.go"), nil, 0)
 	if err != nil {
@@ -250,6 +251,7 @@ func wrapOrderFacts() (orderFacts, error) {
 			is, ok := st.(*ast.IfStmt)
 			return ok && mentions(is.Cond, "ctx.Err()") && mentions(is.Body, "sendHeaderIfNeeded")
 		}) >= 0
+		closeLatches = mentions(fd.Body, "sendHeaderIfNeeded")
 		// closeErr is assigned before anything is closed
 		iErr := firstStmt(fd, func(st ast.Stmt) bool {
 			as, ok := st.(*ast.AssignStmt)
@@ -282,6 +284,7 @@ func wrapOrderFacts() (orderFacts, error) {
 		})
 		iLatch := firstStmt(fd, func(st ast.Stmt) bool { return mentions(st, "sendHeaderIfNeeded") })
 		of.sendDone = iChk >= 0 && iLatch > iChk
+		sendLatches = iLatch >= 0
 	}
 	if fd := need("serverStream.SendHeader"); fd != nil {
 		// fx_sendh_done: the context is looked at (and the call left) before the latch is touched
@@ -327,6 +330,12 @@ func wrapOrderFacts() (orderFacts, error) {
 		}
 	}
 	of.misuse = closeFlag != "" && closeFlag == sendFlag
+	// SendHeader itself refusing to publish on a finished call makes the outer tests of the context in Close and
+	// in the server's SendMsg redundant (StreamProofs.sendh_done_subsumes): a tree without them behaves the same
+	if of.sendhDone {
+		of.hdrOnClose = of.hdrOnClose || closeLatches
+		of.sendDone = of.sendDone || sendLatches
+	}
 	return of, nil
 }
 
